@@ -18,7 +18,8 @@ COQ_TARGETS = ["Properties/C01.vo"]
 THEOREMS = ["C01_auth_zone_alone_local", "C01_owned_never_referral", "C01_cache_noninterference_local",
             "C01_cache_noninterference_owned_local", "C01_longest_zone_only", "C01_override_exact",
             "C01_override_any", "C01_prioritising_merge_spec", "C01_nxdomain_only_from_auth_zone_local",
-            "C01_nxdomain_resolved_local", "C01_no_panic_no_fuel", "C01_authoritative_only_total"]
+            "C01_nxdomain_resolved_local", "C01_no_panic_no_fuel", "C01_authoritative_only_total",
+            "C01_done_means_no_upstream_recursive", "C01_done_means_no_upstream_forwarding", "C01_log_names_not_owned_recursive", "C01_log_names_not_owned_forwarding", "C01_owned_local_cases", "C01_nxdomain_only_from_auth_zone_recursive", "C01_nxdomain_only_from_auth_zone_forwarding"]
 RULE = ("local stream (authoritative-only mode and resolve_local): case = a set of zones (nested apexes, authoritative and not, "
         "wildcards, CNAMEs, delegations, blocklist entries), cache contents and 3..96 questions; non-trivial = distinct case line in "
         "which at least one question is answered (not an error) from zone or cache data according to the model.  "
